@@ -1200,10 +1200,11 @@ def enum_recursive(tier: str, rng: random.Random) -> Iterator[dict]:
 # comparing a library result with the reference
 # --------------------------------------------------------------------------------------
 
-def classify_entry(obs, exp, semiring_name: str, tol: float) -> Optional[str]:
+def classify_entry(obs, exp, semiring_name: str, tol: float, real_zero_exact: bool = True) -> Optional[str]:
     """None when the observed entry agrees with the expected one, else the kind of mismatch.
     Bool exact; +-inf (the semiring zero of Log/Viterbi is -inf) must agree exactly; exact 0 of
-    the Real semiring must be exactly 0; finite values within tol * max(1, |exp|)."""
+    the Real semiring must be exactly 0 (unless real_zero_exact=False: then within tol, for results
+    of numerical linear solves); finite values within tol * max(1, |exp|)."""
     if semiring_name == "Bool":
         return None if bool(obs) == bool(exp) and isinstance(obs, bool) else "wrong-bool"
     if obs != obs:
@@ -1220,14 +1221,15 @@ def classify_entry(obs, exp, semiring_name: str, tol: float) -> Optional[str]:
         return "finite-as-posinf"
     if obs == -INF:
         return "finite-as-neginf"
-    if semiring_name == "Real" and exp == 0:
+    if semiring_name == "Real" and exp == 0 and real_zero_exact:
         return None if obs == 0 else "zero-as-nonzero"
     if abs(obs - exp) <= tol * max(1.0, abs(exp)):
         return None
     return "wrong-value"
 
 
-def compare_dense(dense, exp_nested, semiring_name: str, tol: float) -> List[Tuple[Tuple[int, ...], Any, Any, str]]:
+def compare_dense(dense, exp_nested, semiring_name: str, tol: float,
+                  real_zero_exact: bool = True) -> List[Tuple[Tuple[int, ...], Any, Any, str]]:
     """dense = torch tensor (result.to_dense()).  Returns [(index, observed, expected, kind)]."""
     shape = []
     e = exp_nested
@@ -1240,7 +1242,7 @@ def compare_dense(dense, exp_nested, semiring_name: str, tol: float) -> List[Tup
     out = []
     for idx in itertools.product(*[range(s) for s in shape]):
         o, x = nested_get(obs_nested, idx), nested_get(exp_nested, idx)
-        k = classify_entry(o, x, semiring_name, tol)
+        k = classify_entry(o, x, semiring_name, tol, real_zero_exact)
         if k is not None:
             out.append((idx, o, x, k))
     return out
